@@ -436,6 +436,24 @@ pub fn gen_tree(rng: &mut Rng, docs: &mut Docs) -> Tree {
                 continue;
             }
         }
+        if symlinks && rng.chance(0.07) {
+            // a symbolic link to a directory (also to a hidden one, to its own parent, to the
+            // directory it lives in): a walk that does not follow links never enters it; the model
+            // treats the link as a leaf and no generated path ever leads through it
+            let all_dirs = dirs_of(&tree);
+            let target_key = match rng.below(4) {
+                0 => dir.clone(),
+                1 => parent(&dir).to_string(),
+                _ => rng.pick(&all_dirs).clone(),
+            };
+            let lname = *rng.pick(&["ln", "linked", "loop", "ld.typ"]);
+            let lkey = join(&dir, lname);
+            if !tree.contains_key(&lkey) {
+                let t = rel_from(&dir, &target_key);
+                tree.insert(lkey, Node::Symlink(t));
+            }
+            continue;
+        }
         if symlinks && rng.chance(0.2) {
             let files = files_of(&tree);
             let target_key = if !files.is_empty() && rng.chance(0.8) { rng.pick(&files).clone() } else { join(&dir, "missing.typ") };
@@ -651,7 +669,9 @@ pub fn gen_edit(rng: &mut Rng, tree: &Tree, docs: &mut Docs) -> Option<Edit> {
 /// of two gives the last document the first one's attributes.
 fn gen_wraparound_case(seed: u64, profile: &str, params: &GenParams) -> Case {
     let mut rng = Rng::stream(seed, "wraparound");
-    let k = *rng.pick(&[65usize, 129, 257, 257]);
+    let k = *rng.pick(&[65usize, 129, 256, 257, 257]);
+    // variant: every document differs (counters of changed files at and beyond a power of two)
+    let all_differ = rng.chance(0.3);
     let mut tree = Tree::new();
     tree.insert("w".into(), Node::Dir);
     let mut paths = Vec::new();
@@ -661,6 +681,8 @@ fn gen_wraparound_case(seed: u64, profile: &str, params: &GenParams) -> Case {
             "// @typstyle off\n#let   zqwrapx1  =  (1,2 ,3)\n".to_string()
         } else if i == k - 1 {
             "// typstyle note\n#let   zqwrapx2  =  (1,2 ,3)\n".to_string()
+        } else if all_differ {
+            format!("=   Heading zqwrapx{}\n", i + 10)
         } else {
             format!("= Heading zqwrapx{}\n", i + 10)
         };
